@@ -11,7 +11,8 @@ C20 line-protocol driver.   (`.` = empty/absent, `=`+payload = present, byte str
                                                  given sites; blocks = `.` | listener:flag;… ; sites = port,port:haslog;…
   fenc <nwith> <cfg> <tree> <tables>             one log entry through a provisioned FilterEncoder
                                                  cfg = `.` | path@filter+path@filter ; tree = `.` | tokens joined by `/`:
-                                                 o:<key> … c (object), l:<key>:<kind>:<val> (leaf); keys ascending per object
+                                                 o:<key> … c (object), l:<key>:<kind>:<val> (leaf), n:<key> (zap.Namespace);
+                                                 keys ascending per object
 
 H = `.` | `k:v,v;k:.;…` (keys strictly ascending).  split = `.` | `ip:port`.
 filter = delete | replace:<v> | hash | ipmask:<v4>:<v6> | query:<acts> | cookie:<acts> | regexp:<pat>:<repl> | rename:<n>
@@ -310,6 +311,10 @@ def treeStep (st : Option (List (Bytes × List Node))) (tok : String) : Option (
       match stack with
       | (k, kids) :: (pk, pkids) :: rest => some ((pk, Node.obj k kids.reverse :: pkids) :: rest)
       | _ => none
+    | ["n", k] =>
+      match stack with
+      | (pk, pkids) :: rest => do pure ((pk, Node.ns (← Hex.decode k) :: pkids) :: rest)
+      | [] => none
     | ["l", k, kind, v] =>
       match stack with
       | (pk, pkids) :: rest => do pure ((pk, Node.leaf (← Hex.decode k) (← parseVal kind v) :: pkids) :: rest)
@@ -319,11 +324,13 @@ def treeStep (st : Option (List (Bytes × List Node))) (tok : String) : Option (
 def nodeKey : Node → Bytes
   | .leaf k _ => k
   | .obj k _ => k
+  | .ns k => k
 
 mutual
 def keysSortedNode : Node → Bool
   | .leaf _ _ => true
   | .obj _ kids => strictlySorted (kids.map nodeKey) && keysSortedList kids
+  | .ns _ => true
 def keysSortedList : List Node → Bool
   | [] => true
   | n :: r => keysSortedNode n && keysSortedList r
@@ -352,6 +359,7 @@ mutual
 def showNode : Node → List String
   | .leaf k v => ["l:" ++ Hex.encode k ++ ":" ++ showVal v]
   | .obj k kids => ["o:" ++ Hex.encode k] ++ showNodes kids ++ ["c"]
+  | .ns k => ["n:" ++ Hex.encode k]
 def showNodes : List Node → List String
   | [] => []
   | n :: r => showNode n ++ showNodes r
@@ -361,13 +369,14 @@ mutual
 def sortDeepNode : Node → Node
   | .leaf k v => .leaf k v
   | .obj k kids => .obj k (sortNodes (sortDeepList kids))
+  | .ns k => .ns k
 def sortDeepList : List Node → List Node
   | [] => []
   | n :: r => sortDeepNode n :: sortDeepList r
 end
 
 def showTree (l : List Node) : String :=
-  match showNodes (sortNodes (sortDeepList l)) with
+  match showNodes (sortNodes (sortDeepList (nestList l))) with
   | [] => "."
   | toks => "/".intercalate toks
 
@@ -431,8 +440,10 @@ namespace CaddyModel.C20
 /-- counter-example lines replayed on the implementation on every run (see Witness.lean):
     1 hash on an integer field (passed through)                             hash_full_fails
     2 cookie filter on a string field (passed through)                      hash_full_fails
+    3 filter encoder: `first_error>msg → delete` does not run for a field under zap.Namespace("first_error")   fenc_namespace_full_fails
     (the former query / ip_mask / trailer / filter-encoder witnesses are regression cases in corpus/C20/ now) -/
 def witnessLines : List String := [
   "C20 flt hash 737461747573 o 0 .",
-  "C20 flt cookie:d,736964,- 636f6f6b6965 s 7369643d3031323334353637383961626364656630313233343536373839616263646566 ."]
+  "C20 flt cookie:d,736964,- 636f6f6b6965 s 7369643d3031323334353637383961626364656630313233343536373839616263646566 .",
+  "C20 fenc 0 66697273745f6572726f723e6d7367@delete n:66697273745f6572726f72/l:6d7367:s:757073747265616d2073616964203031323334353637383961626364656630313233343536373839616263646566 ."]
 end CaddyModel.C20
